@@ -293,6 +293,15 @@ class Engine:
             res = self._exec_stmt(s, st, cx)
         except PathAbort:
             res = []
+        except Unsupported as ex:
+            if not self.c.extra.get("prune_unsupported"):
+                raise
+            # a construct outside the subset is tolerated only where the contract's precondition makes it unreachable:
+            # the path condition must be refutable (obligation of kind `unreachable`; if it is not discharged the whole
+            # function counts as outside the subset -- never as a violation)
+            self.emit(f"unreachable:{type(s).__name__}@{getattr(s, 'lineno', 0)}:{str(ex)[:60]}", "unreachable", st, z3.BoolVal(False),
+                      getattr(s, "lineno", 0))
+            res = []
         hook = self.c.extra.get("ghost_after", {}).get(_norm(ast.unparse(s))) if not isinstance(
             s, (ast.For, ast.While, ast.If, ast.Try)) else None
         if hook is None and not isinstance(s, (ast.For, ast.While, ast.If, ast.Try)):
